@@ -110,6 +110,17 @@ let run (id : string) (ops : string list) (out : out_channel) =
   if !real then Printf.fprintf out "%s\ttags\timpl-only\n" id
   else begin
     let r = run_case fuel !tbl !data !first !o (Stdlib.List.rev !prog) in
+    (* which hypotheses of the theorems this case's family meets (decidable checks proved
+       sufficient in Proofs/PacketScriptProofs.v) *)
+    let hyps = Stdlib.List.filter_map (fun x -> x)
+      [ (if table_F6b !tbl then Some "hyp-F6" else None);
+        (if table_progressb !tbl then Some "hyp-progress" else None);
+        (if table_no_seterrb !tbl then Some "hyp-no-seterr" else None);
+        (if table_F6b !tbl && !data <> [] && (match r.cr_new with NewOk _ -> true | _ -> false)
+         then Some "inside-C03-theorem" else None);
+        (if table_progressb !tbl && table_no_seterrb !tbl && not (!o).o_skiprec
+         then Some "inside-C01-theorems" else None) ] in
+    if hyps <> [] then Printf.fprintf out "%s\ttags\t%s\n" id (String.concat "," hyps);
     (match r.cr_new with
      | NewOk pk ->
        let p = (match pk with PEager p -> p | PLazy lp -> lp.lp_p) in
